@@ -1,6 +1,7 @@
 package main
 
 import (
+	"os"
 	"fmt"
 	"go/token"
 	"go/types"
@@ -128,12 +129,49 @@ func returnCases(fn *ssa.Function) []retCase {
 	return out
 }
 
+// deleteMetricRoles: which parameter of deleteMetric is the metric name (first argument of
+// DeleteChild), which the tags key (second argument) and which the collection (the receiver of
+// DeleteChild); -1 when the body does not tell.
+func deleteMetricRoles(w *World) (key, tags, coll int) {
+	key, tags, coll = -1, -1, -1
+	dm := w.Func("pkg/statsd", "deleteMetric")
+	if dm == nil {
+		return
+	}
+	for _, call := range callsIn(dm) {
+		cc := call.Common()
+		if cc.IsInvoke() && cc.Method.Name() == "DeleteChild" && len(cc.Args) == 2 {
+			key, tags, coll = paramIndex(dm, cc.Args[0]), paramIndex(dm, cc.Args[1]), paramIndex(dm, cc.Value)
+		}
+	}
+	if key < 0 || tags < 0 || coll < 0 {
+		return -1, -1, -1
+	}
+	return
+}
+
 func c09(c *Ctx) {
 	w := c.W
 	c.Explanation = "C09 (series persist until their type's expiry interval elapses): the wiring of each metric type to its own expiry interval from configuration to Reset, the shape of isExpired (interval != 0 && now - ts > interval, strict), deletion only on the expired edge inside Reset, Reset keeping identity incl. Timestamp and leaving gauges untouched, timestamps only raised by merges, and agreement of the four AggregatedMetrics implementations."
 	c.NotDecided = []string{"behaviour over multi-flush histories as such (follows from R1-R6 plus C01.R2 by the argument in DESIGN.md section 5 C09)", "clock behaviour"}
 
 	c.Rule("C09.R1", "type <-> interval wiring: every expiry-interval field, parameter and config key is connected to the same metric-type stem", 20, func(r *Rule) {
+		// parameters that are stored directly into an expiry-interval field take that field's stem
+		// (whatever the parameter is called); their call sites are checked in (2)
+		paramStem := map[*ssa.Parameter]string{}
+		for _, fn := range w.ModuleFuncs() {
+			for _, st := range storesIn(fn) {
+				if _, f, _, ok := fieldRef(st.Addr); ok && stemOf(f) != "" {
+					if p, isP := stripConvVal(st.Val).(*ssa.Parameter); isP && p.Parent() == fn {
+						if old, dup := paramStem[p]; dup && old != stemOf(f) {
+							paramStem[p] = "?"
+						} else {
+							paramStem[p] = stemOf(f)
+						}
+					}
+				}
+			}
+		}
 		for _, fn := range w.ModuleFuncs() {
 			pp := fnPkgPath(fn)
 			if strings.Contains(pp, "/internal/fixtures") || strings.HasSuffix(pp, "/cmd/tester") || strings.HasSuffix(pp, "/cmd/loader") {
@@ -152,6 +190,11 @@ func c09(c *Ctx) {
 				c.SawFunc(FuncName(fn))
 				es := exprString(st.Val, 0)
 				got := allStemsIn(es)
+				if p, isP := stripConvVal(st.Val).(*ssa.Parameter); isP && paramStem[p] == stem {
+					// wired through the parameter: what is passed for it is checked at the call sites
+					r.Check(FuncName(fn)+":store:"+f, true, st.Pos(), fmt.Sprintf("field %s <- parameter %s", f, p.Name()))
+					continue
+				}
 				r.Check(FuncName(fn)+":store:"+f, len(got) >= 1 && allEq(got, stem), st.Pos(), fmt.Sprintf("field %s <- %s (stems %v)", f, es, got))
 			}
 			// (2) call arguments bound to parameters named *ExpiryInterval<Stem>
@@ -162,7 +205,10 @@ func c09(c *Ctx) {
 				}
 				args := call.Common().Args
 				for i, p := range cal.Params {
-					stem := stemOf(p.Name())
+					stem := paramStem[p]
+					if stem == "" {
+						stem = stemOf(p.Name())
+					}
 					if stem == "" || i >= len(args) {
 						continue
 					}
@@ -194,7 +240,8 @@ func c09(c *Ctx) {
 				a := call.Common().Args
 				p0 := pathOf(a[0])
 				r.Check("Reset:"+F+":interval", stemOf(p0) == T && strings.HasPrefix(p0, "a."), call.Pos(), "interval argument "+p0+" for "+F)
-				r.Check("Reset:"+F+":now", valueName(a[1]) == "nowNano", call.Pos(), "now argument "+pathOf(a[1]))
+				nowES := exprString(ptrOrigin(a[1]), 0)
+				r.Check("Reset:"+F+":now", strings.Contains(nowES, "UnixNano") && strings.Contains(nowES, ".now"), call.Pos(), "now argument "+pathOf(a[1])+" = "+nowES)
 				okTs := false
 				if u, ok := a[2].(*ssa.UnOp); ok {
 					if _, f, base, ok := fieldRef(u.X); ok && f == "Timestamp" {
@@ -207,19 +254,28 @@ func c09(c *Ctx) {
 			}
 			for _, call := range callsTo(cl, "pkg/statsd.deleteMetric") {
 				a := call.Common().Args
-				ls := loadsOf(a[2])
-				r.Check("Reset:"+F+":delete-collection", len(ls) == 1 && ls[0].F == F && strings.HasSuffix(ls[0].Base, "metricMap"), call.Pos(), "deleteMetric on "+pathOf(a[2]))
-				r.Check("Reset:"+F+":delete-keys", paramIndex(cl, a[0]) == 0 && paramIndex(cl, a[1]) == 1, call.Pos(), "deleteMetric("+pathOf(a[0])+","+pathOf(a[1])+")")
+				kI, tI, cI := deleteMetricRoles(w)
+				if kI < 0 || kI >= len(a) || tI >= len(a) || cI >= len(a) {
+					r.Fail("Reset:"+F+":delete-keys", call.Pos(), "the roles of deleteMetric's parameters cannot be told from its body")
+					continue
+				}
+				ls := loadsOf(a[cI])
+				r.Check("Reset:"+F+":delete-collection", len(ls) == 1 && ls[0].F == F && strings.HasSuffix(ls[0].Base, "metricMap"), call.Pos(), "deleteMetric on "+pathOf(a[cI]))
+				r.Check("Reset:"+F+":delete-keys", paramIndex(cl, a[kI]) == 0 && paramIndex(cl, a[tI]) == 1, call.Pos(), "deleteMetric(key="+pathOf(a[kI])+", tagsKey="+pathOf(a[tI])+")")
 			}
 		}
 		// nowNano derives from a.now()
-		okNow := false
+		// the clock is read once, in Reset itself (not per series)
+		nNow := 0
 		eachInstr(fn, func(in ssa.Instruction) {
-			if st, ok := in.(*ssa.Store); ok && valueName(st.Addr) == "nowNano" {
-				es := exprString(st.Val, 0)
-				okNow = strings.Contains(es, "UnixNano") && strings.Contains(es, ".now")
+			if cl, ok := in.(*ssa.Call); ok {
+				es := exprString(cl, 0)
+				if strings.Contains(shortCallee(cl), "UnixNano") && strings.Contains(es, ".now") {
+					nNow++
+				}
 			}
 		})
+		okNow := nNow == 1
 		r.Check("Reset:now-source", okNow, fn.Pos(), "nowNano = a.now().UnixNano()")
 	})
 
@@ -234,101 +290,40 @@ func c09(c *Ctx) {
 			r.Fail("isExpired:signature", fn.Pos(), "expected (interval, now, ts)")
 			return
 		}
-		pi, pn, pt := fn.Params[0], fn.Params[1], fn.Params[2]
-		strip := func(v ssa.Value) ssa.Value {
-			for {
-				switch x := v.(type) {
-				case *ssa.ChangeType:
-					v = x.X
-				case *ssa.Convert:
-					v = x.X
-				default:
-					return v
+		// which parameter is which is read off the call sites in Reset: the interval is the aggregator's
+		// expiryInterval<T> field, the timestamp the visited element's Timestamp, the third one the clock
+		reset := w.Func("pkg/statsd", "(*MetricAggregator).Reset")
+		iI, iT, iN := -1, -1, -1
+		if reset != nil {
+			for _, f := range WithAnon(reset) {
+				for _, call := range callsIn(f) {
+					if staticCallee(call) != fn {
+						continue
+					}
+					for k, arg := range call.Common().Args {
+						p := pathOf(arg)
+						switch {
+						case stemOf(p) != "":
+							iI = k
+						case strings.HasSuffix(p, ".Timestamp"):
+							iT = k
+						}
+					}
 				}
 			}
 		}
-		isZeroTest := func(cd Cond) (nonzero bool, ok bool) {
-			cd = normCond(cd)
-			b := asBinOp(cd.V, token.NEQ, token.EQL)
-			if b == nil {
-				return false, false
-			}
-			var other ssa.Value
-			if strip(b.X) == ssa.Value(pi) {
-				other = b.Y
-			} else if strip(b.Y) == ssa.Value(pi) {
-				other = b.X
-			} else {
-				return false, false
-			}
-			if n, isC := constInt(other); !isC || n != 0 {
-				return false, false
-			}
-			nz := b.Op == token.NEQ
-			if !cd.Sense {
-				nz = !nz
-			}
-			return nz, true
+		if iI < 0 || iT < 0 || iI == iT {
+			r.Fail("isExpired:roles", fn.Pos(), "cannot tell the interval and timestamp arguments of isExpired from its call sites in Reset")
+			return
 		}
-		// elapsed > interval (strict)
-		isElapsedCmp := func(v ssa.Value) (ok bool, why string) {
-			b := asBinOp(v, token.GTR, token.LSS, token.GEQ, token.LEQ)
-			if b == nil {
-				return false, "not a comparison: " + pathOf(v)
-			}
-			x, y, op := strip(b.X), strip(b.Y), b.Op
-			if y != ssa.Value(pi) {
-				// mirror
-				x, y = y, x
-				switch op {
-				case token.GTR:
-					op = token.LSS
-				case token.LSS:
-					op = token.GTR
-				case token.GEQ:
-					op = token.LEQ
-				case token.LEQ:
-					op = token.GEQ
-				}
-			}
-			if y != ssa.Value(pi) {
-				return false, "interval is not an operand of " + pathOf(v)
-			}
-			sub := asBinOp(x, token.SUB)
-			if sub == nil || strip(sub.X) != ssa.Value(pn) || strip(sub.Y) != ssa.Value(pt) {
-				return false, "elapsed time is not (now - ts): " + pathOf(x)
-			}
-			if op != token.GTR {
-				return false, "comparison is " + op.String() + ", must be strict 'elapsed > interval' (a series is still reported at the first flush more than the interval after T, not at exactly the interval)"
-			}
-			return true, "(now - ts) > interval"
-		}
-		cases := returnCases(fn)
-		ncmp := 0
-		for i, cs := range cases {
-			key := fmt.Sprintf("isExpired:case#%d", i)
-			nz, haveNz := false, false
-			for _, cd := range cs.Conds {
-				if v, ok := isZeroTest(cd); ok {
-					nz, haveNz = v, true
-				}
-			}
-			if k, ok := cs.Val.(*ssa.Const); ok {
-				if k.Value != nil && k.Value.ExactString() == "false" {
-					r.Check(key, haveNz && !nz, fn.Pos(), "returns false only under interval == 0")
-				} else {
-					r.Fail(key, fn.Pos(), "returns constant "+pathOf(k))
-				}
-				continue
-			}
-			ok, why := isElapsedCmp(cs.Val)
-			r.Check(key, ok && haveNz && nz, fn.Pos(), why+fmt.Sprintf(" under interval != 0 (have test: %v)", haveNz))
-			if ok {
-				ncmp++
-			}
-		}
-		r.Check("isExpired:has-comparison", ncmp >= 1, fn.Pos(), fmt.Sprintf("%d result cases, %d of them the elapsed-time comparison", len(cases), ncmp))
-		r.Check("isExpired:has-zero-case", len(cases) >= 2, fn.Pos(), "interval 0 (keep forever) is a separate case")
+		iN = 3 - iI - iT
+		pi, pn, pt := fmt.Sprintf("p%d", iI), fmt.Sprintf("p%d", iN), fmt.Sprintf("p%d", iT)
+		aZero := atomKey(pi, "0")
+		aLate := pi + "<(" + pn + "-" + pt + ")" // interval < now - ts
+		bad, unknown, impure := boolTable(fn, []string{aZero, aLate}, func(a map[string]bool) bool { return !a[aZero] && a[aLate] })
+		r.Check("isExpired:pure", impure == "", fn.Pos(), "no side effects "+impure)
+		r.Check("isExpired:only-known-conditions", len(unknown) == 0, fn.Pos(), "conditions consulted: interval == 0 and interval < now - ts (strict); others: "+strings.Join(unknown, "; "))
+		r.Check("isExpired:decision-table", len(bad) == 0, fn.Pos(), "expired <=> interval != 0 && now - ts > interval (strict: a series is still reported at the first flush more than the interval after T, not at exactly the interval) "+strings.Join(bad, "; "))
 	})
 
 	c.Rule("C09.R3", "deletion only on expiry: series are removed from the aggregator only in Reset, on the true edge of isExpired", 6, func(r *Rule) {
@@ -396,7 +391,8 @@ func c09(c *Ctx) {
 			r.Fail("deleteMetric:shape", dm.Pos(), "deleteMetric must call DeleteChild, HasChildren and Delete")
 			return
 		}
-		r.Check("deleteMetric:child-keys", paramIndex(dm, dc.Common().Args[0]) == 0 && paramIndex(dm, dc.Common().Args[1]) == 1, dc.Pos(), "DeleteChild(key, tagsKey)")
+		kI, tI, _ := deleteMetricRoles(w)
+		r.Check("deleteMetric:child-keys", kI >= 0 && tI >= 0 && kI != tI, dc.Pos(), "DeleteChild(key, tagsKey) with two distinct string parameters")
 		r.Check("deleteMetric:order", instrDominates(dc, hc), hc.Pos(), "DeleteChild precedes HasChildren")
 		guardOK := false
 		for _, cd := range condsFor(dl.Block()) {
@@ -405,7 +401,7 @@ func c09(c *Ctx) {
 				guardOK = true
 			}
 		}
-		r.Check("deleteMetric:delete-only-when-empty", guardOK && paramIndex(dm, dl.Common().Args[0]) == 0 && paramIndex(dm, hc.Common().Args[0]) == 0, dl.Pos(), "Delete(key) only when !HasChildren(key)")
+		r.Check("deleteMetric:delete-only-when-empty", guardOK && kI >= 0 && paramIndex(dm, dl.Common().Args[0]) == kI && paramIndex(dm, hc.Common().Args[0]) == kI, dl.Pos(), "Delete(key) only when !HasChildren(key)")
 	})
 
 	c.Rule("C09.R3b", "expiry is tested for every series: in each Reset closure the isExpired call dominates every return and every write into the map (no series skips the test)", 4, func(r *Rule) {
@@ -450,19 +446,38 @@ func c09(c *Ctx) {
 				fns = append(fns, fn)
 			}
 		}
-		isDefault := func(call ssa.CallInstruction) (string, bool) {
+		// defaultKeys: the expiry-interval-<type> keys a SetDefault call sets (one constant key, or every
+		// entry of a constant table when the call stands in a loop over it)
+		defaultKeys := func(call ssa.CallInstruction) []string {
 			if !strings.HasSuffix(calleeName(call), "Viper).SetDefault") {
-				return "", false
+				return nil
 			}
 			a := callArgs(call)
 			if len(a) < 2 {
+				return nil
+			}
+			var keys []string
+			if k, ok := constString(a[0]); ok {
+				keys = []string{k}
+			} else if tab, ok := stringTableElems(w, a[0]); ok {
+				keys = tab
+			} else if os.Getenv("GSD_DEBUG") != "" {
+				fmt.Printf("DEBUG SetDefault key %T %s\n", a[0], pathOf(a[0]))
+			}
+			var out []string
+			for _, k := range keys {
+				if strings.HasPrefix(k, "expiry-interval-") {
+					out = append(out, k)
+				}
+			}
+			return out
+		}
+		isDefault := func(call ssa.CallInstruction) (string, bool) {
+			ks := defaultKeys(call)
+			if len(ks) == 0 {
 				return "", false
 			}
-			k, ok := constString(a[0])
-			if !ok || !strings.HasPrefix(k, "expiry-interval-") {
-				return "", false
-			}
-			return k, true
+			return strings.Join(ks, "+"), true
 		}
 		isLoader := func(call ssa.CallInstruction) bool {
 			n := calleeName(call)
@@ -509,12 +524,14 @@ func c09(c *Ctx) {
 			var sites []site
 			for _, call := range callsIn(fn) {
 				st := site{in: call.(ssa.Instruction)}
-				if k, ok := isDefault(call); ok {
+				if _, ok := isDefault(call); ok {
 					st.def = true
-					nDef++
+					nDef += len(defaultKeys(call))
 					// the value is GetDuration("expiry-interval")
 					es := exprString(callArgs(call)[1], 0)
-					r.Check("default:"+k+":from-expiry-interval", strings.Contains(es, "GetDuration") && strings.Contains(es, "\"expiry-interval\""), call.Pos(), k+" defaults to "+es)
+					for _, k := range defaultKeys(call) {
+						r.Check("default:"+k+":from-expiry-interval", strings.Contains(es, "GetDuration") && strings.Contains(es, "\"expiry-interval\""), call.Pos(), k+" defaults to "+es)
+					}
 				}
 				if isLoader(call) {
 					st.load = true
